@@ -259,3 +259,38 @@ def replay_job(job):
     for sc in scs:
         res.append(record_one(tw, sc, stats, twin=False, budget=budget))
     return tw.traces, stats, res
+
+
+# ----------------------------------------------------------------------------- whole models under the counter (C10, 2nd sentence)
+def model_job(job):
+    """process / curve models with near-equilibrium permeate temperatures, counted by the wrapper: each must return or raise"""
+    import random
+    from . import rec_process as rp
+    seed, n = job
+    rng = random.Random(seed)
+    w = get_wrapper()
+    out = []
+    for j in range(n):
+        kind = rp.KINDS[j % 2] if rng.random() < 0.8 else "curve"
+        sc = rp.scenario(rng, kind=kind if kind != "curve" else "ideal_iso", mode="temp")
+        sc["Tperm"] = sc["T0"] - gen.logu(rng, 0.05, 10.0)             # near equilibrium: cycles of the flux map live here
+        sc["N"] = rng.choice([1, 2, 3])
+        sc["dt"] = gen.logu(rng, 1e-4, 1e-2)
+        perv = pv.Pervaporation(membrane=sc["membrane"], mixture=sc["mix"])
+        w.start(BUDGET * 2)
+        outcome, exc = "return", None
+        try:
+            if kind == "curve":
+                comps = [pv.Composition(p=rng.uniform(0.05, 0.95), type="weight") for _ in range(sc["N"])]
+                perv.ideal_diffusion_curve(sc["T0"], comps, permeate_temperature=sc["Tperm"], precision=sc["prec"],
+                                           calculation_type=sc["model"])
+            else:
+                rp.call_model(perv, sc, rp.conditions_of(sc))
+        except Abort:
+            outcome = "abort"
+        except Exception as e:  # noqa: BLE001
+            outcome, exc = "raise", type(e).__name__
+        calls, tail, cnt = w.stop()
+        out.append([{"ev": "Model", "kind": kind, "model": sc["model"], "N": sc["N"], "outcome": outcome, "exc": exc, "n": cnt,
+                     "budget": BUDGET * 2, "mixname": sc["mix"].name}])
+    return out
